@@ -89,4 +89,14 @@ def conventionsB (lines : List Line) (total : Nat) : Bool :=
   lines.any (fun l => match l with | .node _ => true | _ => false) && noDeclB lines && acycB g && litNZCheckB g &&
     litRangeB g n && gdecB g && detB g n && (load lines total).2.2 == false && satB g n
 
+/-- only and/or nodes have out-edges (no edge leaves a `t` / `f` node) -/
+def srcInnerCheckB (g : G) : Bool :=
+  (List.range g.outs.size).all fun x =>
+    (g.outs.getD x []).isEmpty || g.kindOf x == some .and || g.kindOf x == some .or
+
+/-- the conventions plus that structural condition: enough for `WF`, `LitUnique` and `MS.HasParents` of
+the loaded array, i.e. for every structural hypothesis of the property theorems -/
+def conventions2B (lines : List Line) (total : Nat) : Bool :=
+  conventionsB lines total && srcInnerCheckB (phase1B lines total).g
+
 end Ddnnf.D4
